@@ -1141,10 +1141,55 @@ impl<'a> Gen<'a> {
         out
     }
 
+    /// A comprehension whose clause list is a random sequence of `for` and `if` clauses (several
+    /// `if`s in a row, after the first and after later `for`s), every condition traced (`tr`) and the
+    /// later ones failing when an earlier guard is false: the clauses must run in source order.
+    fn compr_clauses_stmt(&mut self) -> Vec<J> {
+        let mut out = Vec::new();
+        self.tracer(&mut out);
+        let nfor = 1 + self.rng.below(3) as usize;
+        let mut clauses: Vec<J> = Vec::new();
+        let mut vars: Vec<String> = Vec::new();
+        for fi in 0..nfor {
+            let v = self.fresh("c");
+            let it = if fi > 0 && self.rng.chance(1, 3) {
+                // depends on an earlier loop variable
+                callf("range", vec![bin("+", var(&vars[fi - 1]), int(1))])
+            } else {
+                json!({"k": "list", "items": (0..(1 + self.rng.below(3))).map(|_| int(self.pick(&[0i64, 1, 2, 3, 5]))).collect::<Vec<_>>()})
+            };
+            clauses.push(json!({"k": "for", "tg": {"k": "var", "n": v}, "it": it}));
+            vars.push(v.clone());
+            let nif = self.rng.below(4);
+            for k in 0..nif {
+                let x = var(&self.pick(&vars));
+                let cond = match (k, self.rng.below(4)) {
+                    (0, _) => bin("!=", callf("tr", vec![x]), int(0)),                       // the guard
+                    (_, 0) => bin(">", bin("//", int(10), callf("tr", vec![x])), int(1)),    // fails if the guard was skipped
+                    (_, 1) => bin("<", callf("tr", vec![bin("*", x, int(10))]), int(25)),
+                    (_, 2) => callf("tr", vec![bin("%", int(7), x)]),
+                    _ => json!({"k": "not", "e": callf("tr", vec![bin("-", x, int(2))])}),
+                };
+                clauses.push(json!({"k": "cif", "c": cond}));
+            }
+        }
+        let elt = tuple(vars.iter().map(|v| var(v)).collect());
+        let e = if self.rng.chance(1, 3) {
+            json!({"k": "dictcompr", "key": elt, "val": callf("tr", vec![var(&vars[0])]), "clauses": clauses})
+        } else {
+            json!({"k": "compr", "elt": elt, "clauses": clauses})
+        };
+        out.push(emit(e));
+        out
+    }
+
     pub fn stmt(&mut self, depth: u32) -> Vec<J> {
         let w = self.rng.below(100);
         if depth > 0 && self.rng.chance(1, 25) {
             return self.aug_order_stmt();
+        }
+        if depth > 0 && self.rng.chance(1, 20) {
+            return self.compr_clauses_stmt();
         }
         if depth == 0 {
             return if w < 50 { self.emit_stmt(2) } else if w < 80 { self.new_var_stmt(2) } else { self.mutate_stmt(2) };
